@@ -45,7 +45,7 @@ PROPS = {
     "C17": {
         "modules": ["ALock.Props.C17"],
         "prims": ["sem", "mutex", "rwlock", "once", "barrier"],
-        "fields": ["out", "w"],
+        "fields": ["out", "w", "at"],
         "monitors": ["C17"],
         "assumptions": ["polls are atomic; a settle re-polls woken futures with the waker they were last polled with and the 0.5 ms starvation test not firing (the theorems allow any waker and either outcome of the test)"],
         "partial": ["thread interleavings; threads parked in blocking forms"],
@@ -64,7 +64,7 @@ PROPS = {
         "atomics": True,
         "modules": ["ALock.Props.C09"],
         "prims": ["barrier"],
-        "fields": ["out", "w", "words", "ev"],
+        "fields": ["out", "w", "words", "ev", "at"],
         "monitors": ["C09"],
         "assumptions": ["polls are atomic, so the inner mutex is free between operations (the differential run checks the mutex word and lock_ops stay 0) and the slow path of the embedded lock is not exercised",
                         "generation_id wrap-around (2^64 generations) is outside the model"],
@@ -74,7 +74,7 @@ PROPS = {
         "atomics": True,
         "modules": ["ALock.Props.C04"],
         "prims": ["once"],
-        "fields": ["out", "words", "val", "drops"],
+        "fields": ["out", "words", "val", "drops", "at"],
         "monitors": ["C04"],
         "assumptions": ["initialiser futures are scripted (ok / err / panic / pending / cancelled at any await point); blocking forms are not in the model",
                         "publication order of ptr::write and store(2, Release) is not in this model (memory-ordering table)"],
@@ -85,7 +85,7 @@ PROPS = {
         "atomics": True,
         "modules": ["ALock.Props.C08"],
         "prims": ["once"],
-        "fields": ["out", "w", "words", "ev", "val"],
+        "fields": ["out", "w", "words", "ev", "val", "at"],
         "monitors": ["C08"],
         "assumptions": ["polls are atomic; initialiser futures are scripted; blocking forms are not in the model"],
         "partial": ["thread interleavings; threads parked in blocking forms"],
@@ -221,7 +221,7 @@ LOOM = {
     "C04": ["c04_blocking", "c04_publish", "c08_handover", "c08_blocking"],
     "C05": ["c01_lock", "c05_three", "c05_starved", "c05_starved_held", "c05_barge", "c01_blocking", "c10_mutex_cancel"],
     "C06": ["c02_async", "c06_mix", "c11_upgrade_async", "c02_blocking", "c10_rw_cancel"],
-    "C07": ["c03_async", "c07_three", "c03_blocking", "c10_sem_cancel"],
+    "C07": ["c03_async", "c07_three", "c03_blocking", "c10_sem_cancel", "c07_blocking_two"],
     "C08": ["c08_handover", "c04_blocking", "c08_blocking"],
     "C09": ["c09_barrier", "c09_blocking"],
     "C10": ["c10_mutex_cancel", "c10_rw_cancel", "c10_sem_cancel"],
